@@ -393,11 +393,21 @@ def main(argv):
     def run_pass(profile, pass_seed, wd):
         """one generation + evaluation pass; returns its meta (or None)"""
         os.makedirs(wd, exist_ok=True)
+        cur_file = os.path.join(wd, "current_input.txt")
+        if os.path.exists(cur_file):
+            os.remove(cur_file)
         try:
             rc, outg = run([harness_bin(profile), "gen", prop, "--seed", str(pass_seed), "--n", str(n_cases),
-                            "--tier", tier, "--out", wd], cwd=ROOT, timeout=cfg.get("gen_timeout", 1800))
+                            "--tier", tier, "--out", wd], cwd=ROOT, timeout=cfg.get("gen_timeout", 1800),
+                           env=dict(ENV, VERIF_CURRENT_FILE=cur_file))
         except subprocess.TimeoutExpired:
             rc, outg = 124, "harness generator timed out"
+        if rc < 0 and os.path.exists(cur_file):
+            # the harness process was killed by a signal while the implementation ran (segmentation fault, abort,
+            # native stack overflow): a crash of the implementation on the input that was running
+            add_violation("crash", "the implementation crashed (signal %d, %s build) while running: %s\n%s" % (
+                -rc, profile, open(cur_file).read()[:4000], outg[-1500:]), case_seed=pass_seed)
+            return None
         if rc == 42:
             add_violation("hang", "the implementation stopped making progress (%s build): %s" % (profile, outg[-3000:]),
                           case_seed=pass_seed)
